@@ -1550,6 +1550,28 @@ bool World::exec_foreign_op(const Step& s)
         finish(s.op);
         return true;
     }
+    if (s.op == "f_unanalyse")
+    {
+        // second-party state the library itself never produces: a 1.x track without a PerformanceData row
+        // (what Engine leaves behind for an imported, not yet analysed file)
+        if (v2)
+            return true;
+        HDb d;
+        bool ok = d.open(db_path(*this, true), false) && d.run("DELETE FROM PerformanceData WHERE id = ?", {HDb::Bind::Int(id)});
+        d.close();
+        note("f_unanalyse track " + std::to_string(id) + (ok ? " -> performance row deleted" : " -> failed"));
+        if (ok)
+        {
+            probes.hit("foreign_unanalysed_track");
+            unanalysed.insert(id);
+        }
+        log.str("f_unanalyse");
+        gate_log.str("f_unanalyse");
+        // the library's view changed behind its back: differential checks restart from here
+        prev = observe();
+        have_prev = true;
+        return true;
+    }
     if (s.op == "f_write1")
     {
         if (v2)
